@@ -356,6 +356,21 @@ func runC02Case(rep *verifrep.R, dir string, c c02Case) {
 				cutClass = "everything-old"
 			default:
 				cstart = r.entries[st.CutAt].UnixNano + int64(exp+expireSessionsInterval)
+				if c.Params.ClockSteps {
+					// the horizon falls between an entry and its successor that carries an EARLIER
+					// timestamp: the newer one ends the folding, the older one behind it stays
+					var backs []int
+					for i := 0; i+1 < r.applied; i++ {
+						if r.entries[i+1].UnixNano < r.entries[i].UnixNano {
+							backs = append(backs, i)
+						}
+					}
+					if len(backs) > 0 {
+						i := backs[st.CutAt%len(backs)]
+						cstart = r.entries[i+1].UnixNano + 1 + int64(exp+expireSessionsInterval)
+						cutClass = "clock-step-back"
+					}
+				}
 			}
 			firstBefore, _ := r.f.fsm.ircstore.FirstIndex()
 			fail := -1
@@ -501,6 +516,9 @@ func TestVerifC02(t *testing.T) {
 		seed := base*7919 + int64(k)
 		rng := rand.New(rand.NewSource(seed))
 		p := verifgen.Params{Len: 5 + rng.Intn(116), Garbage: 0.02, Services: rng.Intn(2) == 0, Captcha: rng.Intn(4) == 0, IndexGaps: rng.Intn(3) != 0, Deletes: true, MoD: rng.Intn(6) == 0, NoConfig: rng.Intn(8) == 0}
+		// every third history has a clock that steps back now and then (a new leader whose clock
+		// lags): around the compaction horizon an older entry can follow a newer one
+		p.ClockSteps = k%3 == 1
 		c := c02Case{Seed: seed, Params: p, Steps: c02Schedule(rng, p.Len), Offset: []uint64{0, 1000, 4648398125000000000}[rng.Intn(3)]}
 		if k%4 == 3 {
 			c.JSONFirst = true
